@@ -267,6 +267,11 @@ class Ctx:
                         if (t2, p2) in seen:
                             continue
                         seen.add((t2, p2))
+                        # an explicit `not X` is only handed out in its unwrapped form (X with
+                        # the opposite polarity, also in this list): `contains` on the wrapped
+                        # term would see the atoms of X under the wrong polarity
+                        if t2[0] == 'unary' and t2[1] == 'not':
+                            continue
                         # a true disjunction / false conjunction says nothing about its parts:
                         # it is handed out wrapped, so that `contains` cannot look inside
                         # (unweak() gives the term back for rules that match it as a whole)
